@@ -128,6 +128,12 @@ impl Scenario for SignSc {
                 }
             }
             "tags" => {}
+            "interop-long-lists" => {
+                let sizes: &[i64] = if tier == Tier::Thorough { &[(1 << 17) + 1, (1 << 18) + 3, (1 << 19) + 1, (1 << 20) + 1] } else { &[(1 << 17) + 1] };
+                p.set("g", (index % 2) as i64);
+                p.set("n", sizes[(index / 2) as usize % sizes.len()]);
+                p.set("scheme", ((index / 2 / sizes.len() as u64) % 2 * 2) as i64);
+            }
             "registry" => {
                 p.set("parties", x.range(2, 8) as i64);
                 if x.chance(1, 2) {
@@ -166,6 +172,7 @@ impl Scenario for SignSc {
             "bitflip-all" => run_bitflip_all(plan, lib, rec),
             "relabel" => run_relabel(plan, lib, rec),
             "tags" => run_tags(plan, lib, rec),
+            "interop-long-lists" => run_long_lists(plan, lib, rec),
             "interop" => run_interop(plan, lib, rec),
             "registry" => run_registry(plan, lib, rec),
             _ => {}
@@ -274,6 +281,18 @@ fn run_sign_rt(plan: &Plan, lib: &dyn Lib, rec: &mut Rec) {
                         rec.expect("C01", "verifies-after-encoding", false, || format!("decode | pk/sig from {} failed", wire.name()));
                         continue;
                     };
+                    // a receiver that was handed the bare point tries the scheme labels in turn, or a copy of the response whose
+                    // label byte was damaged arrived first: the same point under the other labels, then under its own
+                    if x.chance(1, 3) && !sig_b.is_empty() {
+                        for other in 0..3u8 {
+                            if other != sig_b[0] {
+                                let mut relabelled = sig_b.clone();
+                                relabelled[0] = other;
+                                rec.fault("label-damaged-copy-arrives-first");
+                                let _ = c.at(verifier, || rec.call(lib, g, Op::Verify, &[&relabelled, &pk_b, &resp.parts[2]]));
+                            }
+                        }
+                    }
                     let v = c.at(verifier, || rec.call(lib, g, Op::Verify, &[&sig_b, &pk_b, &resp.parts[2]]));
                     rec.expect("C01", "honest-signature-verifies", v.is_ok(), || {
                         format!("verify scheme={} g={} key_class={} len={} wire={} | honest signature rejected: {:?}", scheme_name(scheme), g.name(), kc, resp.parts[2].len(), wire.name(), v)
@@ -676,6 +695,35 @@ fn run_relabel(plan: &Plan, lib: &dyn Lib, rec: &mut Rec) {
     let mut s32 = [0u8; 32];
     x.fill(&mut s32);
     let shares = rec.call(lib, g, Op::Split, &[&a.sk, &u64b(2), &u64b(3), &s32]).ok().unwrap_or_default();
+    // points made under the SIBLING suite's tags: the other group assignment's signing tags, hashed into THIS suite's
+    // signature group with this signer's key (what a peer running the other suite's identifiers over this suite's curve
+    // layout produces). Every label of this suite refuses them, for the run's message and for a 32-byte digest.
+    {
+        let o = if g == Grp::G1 { Grp::G2 } else { Grp::G1 };
+        let theirs = rec.call(lib, o, Op::Dsts, &[]).ok().unwrap_or_default();
+        let mine = rec.call(lib, g, Op::Dsts, &[]).ok().unwrap_or_default();
+        let digest = x.bytes(32);
+        for (ti, tag) in theirs.iter().take(4).enumerate() {
+            if mine.contains(tag) {
+                continue;
+            }
+            for m in [&msg, &digest] {
+                for prefixed in [false, true] {
+                    let signed: Vec<u8> = if prefixed { [a.pk.as_slice(), m.as_slice()].concat() } else { m.clone() };
+                    let Some(pt) = rec.call(lib, g, Op::CoreSign, &[&a.sk, &signed, tag]).first().map(|v| v.to_vec()) else { continue };
+                    rec.fault("byz-sibling-suite-tag");
+                    for label in 0u8..3 {
+                        let sig = [&[label][..], &pt].concat();
+                        let out = rec.call(lib, g, Op::Verify, &[&sig, &a.pk, m]);
+                        rec.expect("C05", "foreign-tag-signature-rejected", !out.is_ok(), || format!("sibling-suite-tag #{} {:?} label={} g={} msg_len={}{} | a point signed under the other suite's tag verifies", ti, String::from_utf8_lossy(tag), scheme_name(label), g.name(), m.len(), if prefixed { " (pk || msg signed)" } else { "" }));
+                    }
+                    let sig = [&[2u8][..], &pt].concat();
+                    let out = rec.call(lib, g, Op::MultiVerify, &[&sig, &a.pk, m]);
+                    rec.expect("C05", "foreign-tag-signature-rejected", !out.is_ok(), || format!("sibling-suite-tag #{} multi-signature g={} | verifies", ti, g.name()));
+                }
+            }
+        }
+    }
     for from in 0u8..3 {
         let Some(sig) = rec.call(lib, g, Op::Sign, &[&a.sk, &[from], &msg]).first().map(|v| v.to_vec()) else { continue };
         let ct = rec.call(lib, g, Op::SignCrypt, &[&a.pk, &[from], &msg]).first().map(|v| v.to_vec());
@@ -822,6 +870,33 @@ fn run_relabel(plan: &Plan, lib: &dyn Lib, rec: &mut Rec) {
 // ------------------------------------------------------------------------------------------
 // C03
 // ------------------------------------------------------------------------------------------
+/// C03: the draft's Aggregate over VERY long lists (2^17 + 1 and more signatures of two signers, alternating): the sum
+/// is a·s1 + b·s2 whatever way the library walks the list (chunks, lanes, worker threads).
+fn run_long_lists(plan: &Plan, lib: &dyn Lib, rec: &mut Rec) {
+    let g = grp_of(plan.get("g"));
+    let b = Bls::draft(sig_grp(g));
+    let n = plan.get("n").clamp(3, 1 << 21) as u64;
+    let scheme = if plan.get("scheme") == 2 { Scheme::Pop } else { Scheme::Basic };
+    let (k1, k2) = (refimpl::keygen(&[1, (plan.seed & 0xff) as u8]), refimpl::keygen(&[2, (plan.seed & 0xff) as u8]));
+    let msg = b"one message, very many signatures".to_vec();
+    let (s1, s2) = (b.sign(scheme, &k1, &msg), b.sign(scheme, &k2, &msg));
+    let enc = |p: &Pt| refimpl::layout::tagged(scheme as u8, &p.to_bytes());
+    let (e1, e2) = (enc(&s1), enc(&s2));
+    let args: Vec<&[u8]> = (0..n).map(|i| if i % 2 == 0 { e1.as_slice() } else { e2.as_slice() }).collect();
+    let want = s1.mul(&refimpl::scalar_from_u64((n + 1) / 2)).add(&s2.mul(&refimpl::scalar_from_u64(n / 2)));
+    rec.case(&[3, g as u64, scheme as u64, n, 78], true);
+    for op in [Op::Aggregate, Op::MultiSig] {
+        let got = rec.call(lib, g, op, &args);
+        rec.expect("C03", "aggregate-equals-reference", got.first() == Some(enc(&want).as_slice()), || format!("long-list {:?} scheme={} n={} g={} | the sum of {} signatures is not the draft's Aggregate: {}", op, scheme_name(scheme as u8), n, g.name(), n, match &got { Out::Ok(v) => short(&v[0]), o => format!("{:?}", o.kind()) }));
+    }
+    let (p1, p2) = (b.sk_to_pk(&k1).to_bytes(), b.sk_to_pk(&k2).to_bytes());
+    let kargs: Vec<&[u8]> = (0..n).map(|i| if i % 2 == 0 { p1.as_slice() } else { p2.as_slice() }).collect();
+    let want_pk = b.sk_to_pk(&k1).mul(&refimpl::scalar_from_u64((n + 1) / 2)).add(&b.sk_to_pk(&k2).mul(&refimpl::scalar_from_u64(n / 2)));
+    let got = rec.call(lib, g, Op::MultiPk, &kargs);
+    rec.expect("C03", "aggregate-equals-reference", got.first() == Some(want_pk.to_bytes().as_slice()), || format!("long-list MultiPk n={} g={} | the sum of {} keys is not a*pk1 + b*pk2", n, g.name(), n));
+    rec.sample(|| format!("long list n={} scheme={} g={}", n, scheme_name(scheme as u8), g.name()));
+}
+
 fn run_interop(plan: &Plan, lib: &dyn Lib, rec: &mut Rec) {
     let g = grp_of(plan.get("g"));
     let mut x = Xo::derive(plan.seed, &[0x51B]);
